@@ -122,10 +122,12 @@ pub fn big_form(rng: &mut Rng) -> (Vec<String>, Vec<String>) {
     let k = n + 10 + rng.below(100);
     let f = vec![
         format!(
-            "(let ((keep (append (vector->list (make-vector {n} 1)) (vector->list (make-vector {h} 2))))) \
+            "(let ((keep (append (vector->list (make-vector {n} 1)) (vector->list (make-vector {n} 1)) (vector->list (make-vector {n} 1)) (vector->list (make-vector {h} 2))))) \
                (let ((old (list-tail keep {k}))) \
                  (length (vector->list (make-vector {m} 0))) \
                  (set-cdr! old (list 5 6 7)) \
+                 (length (vector->list (make-vector {m2} 0))) \
+                 (length (vector->list (make-vector {m2} 0))) \
                  (length (vector->list (make-vector {m2} 0))) \
                  (let ((box (vector (list 'young (car old))))) \
                    (length (vector->list (make-vector {m} 0))) \
